@@ -104,7 +104,7 @@ def to2d_layout(self, result):
     """[r, c] holds flat element r*n+c; NaN exactly on the padding"""
     return forall(range(len(result)), lambda r: forall(range(self.n), lambda c:
                   iff(nan_at(result, r, c), r * self.n + c >= len(self.a))
-                  and implies(r * self.n + c < len(self.a), result[r, c] == self.a[r * self.n + c])))
+                  and ((result[r, c] == self.a[r * self.n + c]) if r * self.n + c < len(self.a) else True)))
 
 
 # ------------------------------------------------------------------------ average
